@@ -1,9 +1,9 @@
 SPECIFICATION Spec
 CONSTANTS
-  MaxSteps = 6
+  MaxSteps = 5
   MaxStreams = 3
-  Depth = 3
-  Level = "full"
+  Depth = 2
+  Level = "quick"
   RecordHist = FALSE
 INVARIANTS TypeOK Consistent TableTotal CloseThenOpen
 PROPERTIES AllAnswered CloseAnswered
